@@ -1082,6 +1082,7 @@ def check_shared_constraints(ctx):
     c05.check_bounds(sub)
     c05.check_string_order(sub)
     c05.check_bool_number(sub)
+    c05.check_regex_anchors(sub)
     ctx.obligations.extend(sub.obligations)
 
 
